@@ -142,8 +142,13 @@ pub fn derive(input: &Input) -> TokenStream {
             #[doc = #vec_name_str]
             /// ::truncate()`](https://doc.rust-lang.org/std/vec/struct.Vec.html#method.truncate)
             /// truncating all fields.
+            #[allow(clippy::drop_non_drop)]
             pub fn truncate(&mut self, len: usize) {
-                #(self.#fields_names.truncate(len);)*
+                // pop the elements one by one so that a `Drop` implementation
+                // of the struct itself runs, as it does for `Vec::truncate`
+                while self.len() > len {
+                    ::std::mem::drop(self.pop());
+                }
             }
 
             /// Similar to [`
@@ -267,7 +272,7 @@ pub fn derive(input: &Input) -> TokenStream {
             #[doc = #vec_name_str]
             /// ::clear()`](https://doc.rust-lang.org/std/vec/struct.Vec.html#method.clear).
             pub fn clear(&mut self) {
-                #(self.#fields_names.clear();)*
+                self.truncate(0);
             }
 
             /// Similar to [`
